@@ -18,6 +18,8 @@ var verifOptQueries = []string{
 	`foo{a="x"} @ 100 + on(a) foo`,
 	`foo{a="x"} offset 30s + on(a) foo`,
 	`foo{b="1"} @ end() - on(b) foo`,
+	`max_over_time(foo{a="x"}[2m] offset 30s) - on(a) foo`,
+	`count(foo{a=~"x|y", a!="x"}) + count(foo{a!="x"}) + count(foo)`,
 }
 
 // VerifH09p: whole pipeline: a query run with the default optimizers (matcher sorting,
@@ -69,6 +71,8 @@ var verifHintQueriesS = []string{
 	// the same selector twice with equal start but different end of the selected range
 	`foo @ start() - foo`,
 	`foo - foo @ start()`,
+	// a merged select whose more specific selector carries an offset
+	`foo{a="x"} offset 1m + on(a) foo`,
 }
 
 // VerifH16s: sufficiency of the hinted time range, with and without plan rewrites: the
